@@ -51,6 +51,9 @@ type Case struct {
 	// RangeRows steers the requested range (1: inside one row, 2: spans rows, 0: any).
 	RangeRows    int  `json:"rangeRows,omitempty"`
 	Blacklisting bool `json:"blacklisting,omitempty"`
+	// AttemptTimeoutMs > 0: the shrex getter's minimal per-attempt timeout is lowered to this value
+	// (verif hook), so that a silent peer costs one attempt, not the whole call.
+	AttemptTimeoutMs int `json:"attemptTimeoutMs,omitempty"`
 	// Expect is the model's verdict for this behaviour (nil for seeded cases beyond the model's bounds).
 	Expect *Expect `json:"expect,omitempty"`
 }
@@ -331,6 +334,9 @@ func (d *driver) runCaseFull(c Case) (out Outcome, keys []string, ctxState strin
 			full := hn.newManager(t, "full", c.Blacklisting)
 			arch := hn.newManager(t, "archival", c.Blacklisting)
 			sg := shrex_getter.NewGetter(hn.shrex, full, arch, availability.RequestWindow)
+			if c.AttemptTimeoutMs > 0 {
+				sg.VerifSetMinRequestTimeout(time.Duration(c.AttemptTimeoutMs) * time.Millisecond)
+			}
 			if err := sg.Start(context.Background()); err != nil {
 				bail("shrex getter start: %v", err)
 			}
